@@ -5,6 +5,7 @@ import (
 	"fmt"
 	"path/filepath"
 	"sort"
+	"sync"
 	"time"
 
 	"github.com/superfly/litefs"
@@ -95,12 +96,15 @@ func trimStack(s string) string {
 
 // ledger maps positions to images per database.
 type ledger struct {
-	m map[string]map[mon.PosKey]*ref.Image
+	mu sync.Mutex
+	m  map[string]map[mon.PosKey]*ref.Image
 }
 
 func newLedger() *ledger { return &ledger{m: map[string]map[mon.PosKey]*ref.Image{}} }
 
 func (l *ledger) put(db string, p mon.PosKey, img *ref.Image) {
+	l.mu.Lock()
+	defer l.mu.Unlock()
 	if l.m[db] == nil {
 		l.m[db] = map[mon.PosKey]*ref.Image{}
 	}
@@ -108,6 +112,8 @@ func (l *ledger) put(db string, p mon.PosKey, img *ref.Image) {
 }
 
 func (l *ledger) get(db string, p mon.PosKey) (*ref.Image, bool) {
+	l.mu.Lock()
+	defer l.mu.Unlock()
 	img, ok := l.m[db][p]
 	return img, ok
 }
